@@ -13,8 +13,9 @@ Definition schema_bag (o : sopts) (doc : tsdoc) : list str := get_bag_of_identif
 (** the name a type is declared under inside the namespaces *)
 Definition declared_name (o : sopts) (doc : tsdoc) (n : str) : str := local_name (schema_bag o doc) n.
 
-Lemma declared_name_plain o doc n : mem n (schema_bag o doc) = false -> declared_name o doc n = n.
-Proof. unfold declared_name, local_name. intros ->. reflexivity. Qed.
+Lemma declared_name_plain o doc n :
+  mem n (schema_bag o doc) = false -> mem n EMITTED_KEYWORDS = false -> declared_name o doc n = n.
+Proof. unfold declared_name, local_name. intros -> ->. reflexivity. Qed.
 
 (** * [print_type] of an object type maps every raw-identifier key *)
 Fixpoint obj_ops (l : list tsfield) : list wop :=
